@@ -46,11 +46,11 @@ PROPS = {
         "explanation": "Theorems: inv_new/insert/set/remove/popIterate/setType (ArrInv: size equations, bands [T/2, 1.5T], per-element inline limit, header copies, cumulative counts, sibling links, >= 2 children at an index root, fresh IDs) for every legal T; full_slab_has_two_elems; two_max_elems_fit; access_agree (positional access = sequential traversal). The arithmetic goes through the regenerated constants: a changed constant that breaks a band stops the proofs. Tie: per-operation dump comparison (every header copy, count sum, size, next link is in the dump). Oracle: VerifyArray / VerifyMap.",
     },
     "C03": {
-        "streams": ["persist", "storage"], "driver": {"persist": "array", "storage": "storage"}, "level": "proof",
+        "streams": ["persist", "mpersist", "storage"], "driver": {"persist": "array", "mpersist": "map", "storage": "storage"}, "level": "proof",
         "trusted_base": LEAN_TB, "assumptions": STORAGE_ASSUME + ARRAY_ASSUME + [
             "container level: the array model's effect log is validated against the real SlabStorage call sequence on every operation; the map model likewise in C02's streams",
             "the codec round trip used by commit_durable_on_reopen is a hypothesis here (C07)"],
-        "rule": "array histories at T in {256,257,511,512,1024,32768,random} with commits every ~{4,8,15,40}% of steps, crashes (storage and handles abandoned, array reopened from the ledger) at random points; after every commit every register is decoded by a brand-new storage and its dump compared with the model's ledger; distinct = distinct (T, length) programs",
+        "rule": "array AND map (real digests and collision tables) histories at T in {256,257,511,512,1024,32768,random} with commits every ~{4,8,15,40}% of steps, crashes (storage and handles abandoned, array reopened from the ledger) at random points; after every commit every register is decoded by a brand-new storage and its dump compared with the model's ledger; distinct = distinct (T, length) programs",
         "explanation": "Theorems (storage level): only_commit_touches_ledger, uncommitted_never_reaches_ledger, commit_durable_on_reopen, crash_recovers_last_commit, temp_never_written + the regenerated fact that only the commit functions call BaseStorage.Store/Remove. Tie: the composition array model + storage state machine reproduces every register (decoded dump) after every commit and the reopened tree after every crash. Oracle: reload on a fresh storage vs a shadow slice; ledger call log empty between commits.",
     },
     "C04": {
